@@ -62,6 +62,10 @@ type Agent struct {
 	CatalogDelay time.Duration
 	// FailHealth makes the next n health queries fail with HTTP 500.
 	failHealth int
+	// failCatalog makes the next n catalog queries fail with HTTP 500.
+	failCatalog int
+	// DefaultWait is how long a blocking query waits when the client sends no wait parameter (Consul: 5m).
+	DefaultWait time.Duration
 	// firstHealthDelay delays the answer to the very first health query (so that the KV watcher delivers first).
 	firstHealthDelay time.Duration
 }
@@ -149,6 +153,20 @@ func (a *Agent) DelayFirstHealth(d time.Duration) {
 	a.mu.Unlock()
 }
 
+// SetDefaultWait sets DefaultWait.
+func (a *Agent) SetDefaultWait(d time.Duration) {
+	a.mu.Lock()
+	a.DefaultWait = d
+	a.mu.Unlock()
+}
+
+// FailNextCatalog makes the next n catalog queries fail (transient catalog failure).
+func (a *Agent) FailNextCatalog(n int) {
+	a.mu.Lock()
+	a.failCatalog = n
+	a.mu.Unlock()
+}
+
 func (a *Agent) FailNextHealth(n int) {
 	a.mu.Lock()
 	a.failHealth = n
@@ -188,9 +206,14 @@ func (a *Agent) self(w http.ResponseWriter, r *http.Request) {
 	json.NewEncoder(w).Encode(map[string]any{"Config": map[string]any{"Datacenter": "dc1", "NodeName": "fake"}, "Member": map[string]any{"Name": "fake"}})
 }
 
-func queryIndex(r *http.Request) (uint64, time.Duration) {
+func (a *Agent) queryIndex(r *http.Request) (uint64, time.Duration) {
 	idx, _ := strconv.ParseUint(r.URL.Query().Get("index"), 10, 64)
 	wait := 30 * time.Second
+	a.mu.Lock()
+	if a.DefaultWait > 0 {
+		wait = a.DefaultWait
+	}
+	a.mu.Unlock()
 	if s := r.URL.Query().Get("wait"); s != "" {
 		if d, err := time.ParseDuration(s); err == nil && d < wait {
 			wait = d
@@ -205,7 +228,7 @@ type hc struct {
 }
 
 func (a *Agent) health(w http.ResponseWriter, r *http.Request) {
-	idx, wait := queryIndex(r)
+	idx, wait := a.queryIndex(r)
 	dl := time.Now().Add(wait)
 	a.mu.Lock()
 	a.HealthQueries++
@@ -279,6 +302,12 @@ func (a *Agent) catalog(w http.ResponseWriter, r *http.Request) {
 	name := strings.TrimPrefix(r.URL.Path, "/v1/catalog/service/")
 	a.mu.Lock()
 	a.CatalogQueries++
+	if a.failCatalog > 0 {
+		a.failCatalog--
+		a.mu.Unlock()
+		http.Error(w, "injected catalog failure", 500)
+		return
+	}
 	d := a.CatalogDelay
 	var out []catalogService
 	var keys []string
@@ -324,7 +353,7 @@ func (a *Agent) kvHandler(w http.ResponseWriter, r *http.Request) {
 		return
 	}
 	_, recurse := r.URL.Query()["recurse"]
-	idx, wait := queryIndex(r)
+	idx, wait := a.queryIndex(r)
 	dl := time.Now().Add(wait)
 	a.mu.Lock()
 	a.KVQueries++
